@@ -111,7 +111,7 @@ def _worker(job):
             'cut_reasons': eng.cut_reasons, 'functions': sorted(funcs),
             'validation_failures': eng.validation_failures[:5],
             'n_validation_failures': len(eng.validation_failures),
-            'lemmas': eng.lemmas, 'mode': eng.mode,
+            'lemmas': eng.lemmas, 'mode': eng.mode, 'notes': eng.notes,
         })
     except BaseException as e:  # harness error
         out['error'] = '%s: %s\n%s' % (type(e).__name__, e, traceback.format_exc()[-1500:])
@@ -210,6 +210,7 @@ def _report(mod, pid, tier, seed, cfgs, results, errors, wall, nproc):
     valfail = []
     cuts = {}
     lemmas = 0
+    notes = {}
     for name, rs in results.items():
         pc = {f: 0 for f in Stats.FIELDS}
         pc['solver_time'] = 0.0
@@ -235,6 +236,8 @@ def _report(mod, pid, tier, seed, cfgs, results, errors, wall, nproc):
             for k, v in r['cut_reasons'].items():
                 cuts[k] = cuts.get(k, 0) + v
             lemmas += r.get('lemmas', 0)
+            for k, v in (r.get('notes') or {}).items():
+                notes.setdefault(k, []).extend(v)
         pc['wall'] = round(w, 2)
         pc['solver_time'] = round(pc['solver_time'], 3)
         pc['max_query'] = round(pc['max_query'], 3)
@@ -357,6 +360,7 @@ def _report(mod, pid, tier, seed, cfgs, results, errors, wall, nproc):
             'arith': meta.get('arith', 'floats as reals; see assumptions'),
             'solver': 'z3 %s (python API)' % z3.get_version_string(),
             'workers': nproc,
+            'notes': notes,
             'known_findings_hit': [k['key'] for k in known_hits],
             'inconclusive': inconclusive_reasons,
             'candidates_reproduced': len(reproduced),
